@@ -718,19 +718,28 @@ structure App where
 
 def hasKey (d : List (Str × Str)) (k : Str) : Bool := (odGet d (lower k)).isSome
 
+/-- the header dict `Responder.build` completes: Server and Date added if absent -/
+def Responder.baseHeaders (date : Str) (r : Responder) : List (Str × Str) :=
+  let h := if hasKey r.headers "server".toList then r.headers else loSet r.headers "server".toList "Ioflo WSGI Server".toList
+  if hasKey h "date".toList then h else loSet h "date".toList date
+
+/-- `if self.chunkable and 'transfer-encoding' not in self.headers` -/
+def Responder.willChunk (date : Str) (r : Responder) : Bool :=
+  r.chunkable && !hasKey (r.baseHeaders date) "transfer-encoding".toList
+
+def Responder.finalHeaders (date : Str) (r : Responder) : List (Str × Str) :=
+  if r.willChunk date then loSet (r.baseHeaders date) "transfer-encoding".toList "chunked".toList else r.baseHeaders date
+
 /-- `Responder.build()`: head bytes; sets `.chunked` and completes `.headers` -/
 def Responder.build (date : Str) (r : Responder) : Except Err (Responder × Bytes) :=
   match encodeAscii ("HTTP/1.1 ".toList ++ r.status) with
   | .error _ => .error .outOfModel     -- idna fallback
   | .ok startLine =>
-    let h := if hasKey r.headers "server".toList then r.headers else loSet r.headers "server".toList "Ioflo WSGI Server".toList
-    let h := if hasKey h "date".toList then h else loSet h "date".toList date
-    let ch := r.chunkable && !hasKey h "transfer-encoding".toList
-    let h := if ch then loSet h "transfer-encoding".toList "chunked".toList else h
-    match packAll (h.map (fun kv => (kv.1, HVal.str kv.2))) with
+    match packAll ((r.finalHeaders date).map (fun kv => (kv.1, HVal.str kv.2))) with
     | .error e => .error e
     | .ok lines =>
-      .ok ({ r with headers := h, chunked := r.chunked || ch }, joinBytes crlf ([startLine] ++ lines ++ [[], []]))
+      .ok ({ r with headers := r.finalHeaders date, chunked := r.chunked || r.willChunk date },
+           joinBytes crlf ([startLine] ++ lines ++ [[], []]))
 
 /-- `Responder.write(msg)`: returns what is queued on the connection, in order -/
 def Responder.write (date : Str) (r : Responder) (msg : Bytes) : Except Err (Responder × List Bytes) :=
